@@ -5,9 +5,11 @@ package main
 // (Header / NextBinEntry / Footer) is stepped and every record compared.
 
 import (
+	"bufio"
 	"bytes"
 	"encoding/json"
 	"fmt"
+	"io"
 	"math/rand"
 
 	"github.com/alibaba/RedisShake/pkg/rdb"
@@ -59,6 +61,7 @@ func rlRun(in []byte) (interface{}, error) {
 	defer tr.Close()
 	nrec := 0
 	typesSeen := map[int]int{}
+	nfile := 0
 	for fi := range cfg.Files {
 		f := &cfg.Files[fi]
 		rnd := rand.New(rand.NewSource(cfg.Seed*100003 + int64(f.Id)))
@@ -258,7 +261,22 @@ func rlRun(in []byte) (interface{}, error) {
 		chunksOK := true
 		var held []heldRec
 		ab, pan := runAbortable(func() {
-			l := rdb.NewLoader(bytes.NewReader(file))
+			// the loader's source delivers the file whole, or in pieces (short reads), as the tool's sources do: a
+			// bufio.Reader over a socket / pipe (utils.NewRDBLoader) hands out what it has buffered
+			var src io.Reader = bytes.NewReader(file)
+			frnd := rand.New(rand.NewSource(int64(len(file))*7919 + int64(nfile)))
+			switch nfile % 3 {
+			case 1:
+				src = bufio.NewReaderSize(&fragReader{b: file, rnd: frnd, max: 8192}, 4096)
+			case 2:
+				if len(file) < 1<<20 {
+					src = &fragReader{b: file, rnd: frnd, max: 7}
+				} else {
+					src = bufio.NewReaderSize(&fragReader{b: file, rnd: frnd, max: 100000}, 64)
+				}
+			}
+			nfile++
+			l := rdb.NewLoader(src)
 			if err := l.Header(); err != nil {
 				errMsg = "header: " + err.Error()
 				return
